@@ -207,3 +207,186 @@ func treeKey(tc *TreeCase) string {
 }
 
 func evQS(s string) ev.QS { return ev.QS(s) }
+
+// BigCase is a large-scale case: many distinct terms and/or a long allowed list. Leaf truth for such cases comes from the
+// matching model of C02 (ref.Match over harness denotations), not from k x |A| extra library calls.
+type BigCase struct {
+	Mode    string     `json:"mode"` // many-terms | long-list
+	Terms   []gen.Term `json:"terms"`
+	Tree    *gen.Node  `json:"tree"`
+	Text    ev.QS      `json:"text"`
+	Allowed []gen.Term `json:"allowed"`
+}
+
+// distinctTerms draws k terms with pairwise different text.
+func distinctTerms(u *gen.Universe, r *gen.Rand, k int, plainOnly bool) []gen.Term {
+	seen := map[string]bool{}
+	var out []gen.Term
+	for len(out) < k {
+		var t gen.Term
+		if plainOnly {
+			t = gen.Term{ID: r.Pick(u.Active)}
+		} else {
+			t = u.RandomTerm(r)
+		}
+		if tx := t.Text(); !seen[tx] {
+			seen[tx] = true
+			out = append(out, t)
+		}
+	}
+	return out
+}
+
+// genBigCase builds large-scale case idx: mode "many-terms" has 65..160 distinct terms (chain or grouped shape, small
+// expansion) and an allowed list of up to 60 entries; mode "long-list" has up to 8 terms and 256..700 allowed entries.
+func genBigCase(c *Ctx, stream string, idx int) *BigCase {
+	u := c.U
+	r := gen.NewRand(c.Seed, gen.HashStr(stream), 0xB16, uint64(idx))
+	bc := &BigCase{}
+	if idx%2 == 0 {
+		bc.Mode = "many-terms"
+		k := 65 + r.Intn(96)
+		bc.Terms = distinctTerms(u, r, k, r.Chance(1, 2))
+		// shape: one dominant operator; sometimes small groups of the other operator (expansion stays small)
+		dom, other := "and", "or"
+		if r.Chance(1, 2) {
+			dom, other = "or", "and"
+		}
+		var t *gen.Node
+		for i := 0; i < k; i++ {
+			n := gen.LeafN(i)
+			if dom == "or" && r.Chance(1, 6) && i+1 < k {
+				n = gen.Bin(other, n, gen.LeafN(i+1))
+				i++
+			}
+			if t == nil {
+				t = n
+			} else if r.Chance(1, 2) {
+				t = gen.Bin(dom, t, n)
+			} else {
+				t = gen.Bin(dom, n, t)
+			}
+		}
+		bc.Tree = t
+		// allowed: all / all but one (first, last or random) / a random half / few
+		switch r.Intn(5) {
+		case 0:
+			bc.Allowed = append([]gen.Term{}, bc.Terms...)
+		case 1, 2:
+			drop := []int{0, k - 1, 63, 64, r.Intn(k)}[r.Intn(5)]
+			for i, t := range bc.Terms {
+				if i != drop {
+					bc.Allowed = append(bc.Allowed, t)
+				}
+			}
+		case 3:
+			for _, t := range bc.Terms {
+				if r.Chance(1, 2) {
+					bc.Allowed = append(bc.Allowed, t)
+				}
+			}
+		default:
+			bc.Allowed = []gen.Term{bc.Terms[r.Intn(k)], bc.Terms[k-1]}
+		}
+		if len(bc.Allowed) == 0 {
+			bc.Allowed = []gen.Term{bc.Terms[0]}
+		}
+	} else {
+		bc.Mode = "long-list"
+		k := 1 + r.Intn(8)
+		bc.Terms = randomPool(u, r, k)
+		bc.Tree = gen.RandomTree(r, r.Intn(gen.NumShapes), k+r.Intn(4), k)
+		n := 256 + r.Intn(450)
+		for len(bc.Allowed) < n {
+			bc.Allowed = append(bc.Allowed, gen.Term{ID: r.Pick(u.Active)})
+			if r.Chance(1, 6) {
+				bc.Allowed = append(bc.Allowed, u.RandomTerm(r))
+			}
+		}
+		// the entries that matter sit anywhere, also at the very end / in the last incomplete block
+		for _, t := range bc.Terms {
+			if r.Chance(2, 3) {
+				m := t
+				if r.Chance(1, 3) {
+					m = relatedTerm(u, r, t)
+				}
+				pos := []int{0, len(bc.Allowed) - 1, len(bc.Allowed) - 2, r.Intn(len(bc.Allowed))}[r.Intn(4)]
+				bc.Allowed[pos] = m
+			}
+		}
+	}
+	leaf := make([]string, len(bc.Terms))
+	for i, t := range bc.Terms {
+		leaf[i] = t.Text()
+	}
+	bc.Text = ev.QS(bc.Tree.Render(leaf, gen.RenderOpt{Paren: gen.ParenMinimal}))
+	return bc
+}
+
+func termTexts(ts []gen.Term) []string {
+	out := make([]string, len(ts))
+	for i, t := range ts {
+		out[i] = t.Text()
+	}
+	return out
+}
+
+// bigString is a large input with known validity and structure.
+type bigString struct {
+	Name     string
+	S        string
+	Valid    bool
+	Compound bool
+}
+
+// bigStrings builds large inputs: sizes beyond every buffer / batch / index threshold one might plausibly choose
+// (64 KiB tokens, 10^4 nesting levels, 512+ ids per expression), valid by construction, plus one-character corruptions.
+func bigStrings(u *gen.Universe, r *gen.Rand) []bigString {
+	ids := func(n int, mutateTail int) []string {
+		out := make([]string, n)
+		for i := range out {
+			out[i] = u.ActPlain[(i*7+r.Intn(3))%len(u.ActPlain)]
+			if i >= n-mutateTail {
+				switch i % 3 {
+				case 0:
+					out[i] = strings.ToLower(out[i])
+				case 1:
+					out[i] = strings.ToUpper(out[i])
+				}
+			}
+		}
+		return out
+	}
+	var out []bigString
+	add := func(name, s string, valid, compound bool) { out = append(out, bigString{name, s, valid, compound}) }
+	nest := func(n int) string { return strings.Repeat("(", n) + "MIT" + strings.Repeat(")", n) }
+	add("nest-10001", nest(10001), true, false)
+	add("nest-33000", nest(33000), true, false)
+	add("nest-33000-unbalanced", nest(33000)+")", false, false)
+	add("licenseref-70000", "LicenseRef-"+strings.Repeat("x", 70000), true, false)
+	add("docref-70000", "DocumentRef-"+strings.Repeat("d", 70000)+":LicenseRef-a", true, false)
+	add("unknown-id-70000", strings.Repeat("y", 70000), false, false)
+	var g []string
+	for i := 0; i < 9000; i++ {
+		g = append(g, "("+u.ActPlain[i%len(u.ActPlain)]+")")
+	}
+	add("tight-groups-9000", strings.Join(g, "AND"), true, true)
+	add("tight-groups-9000-or", strings.Join(g, "OR"), true, true)
+	add("chain-700-and", strings.Join(ids(700, 0), " AND "), true, true)
+	add("chain-700-or-case-tail", strings.Join(ids(700, 120), " OR "), true, true)
+	add("chain-700-unknown-last", strings.Join(ids(700, 0), " AND ")+" AND NOT-A-LICENSE", false, true)
+	add("spaces-70000", "MIT"+strings.Repeat(" ", 70000)+"AND"+strings.Repeat(" ", 70000)+"ISC", true, true)
+	add("leading-spaces-70000", strings.Repeat(" ", 70000)+"MIT", true, false)
+	var w []string
+	for i := 0; i < 600; i++ {
+		w = append(w, u.ActPlain[i%len(u.ActPlain)]+"+ WITH "+strings.ToUpper(u.Exceptions[i%len(u.Exceptions)]))
+	}
+	add("with-chain-600", strings.Join(w, " OR "), true, true)
+	var l []string
+	for i := 0; i < 600; i++ {
+		l = append(l, u.SynthBase[i%len(u.SynthBase)]+"-or-later")
+	}
+	add("or-later-chain-600", strings.Join(l, " AND "), true, true)
+	add("or-later-chain-600-unknown-last", strings.Join(l, " AND ")+" AND (FOO)", false, true)
+	return out
+}
